@@ -59,7 +59,7 @@ func callIntrinsic(fr *frame, fn *ssa.Function, args []value) (value, bool) {
 	if x.spec > 0 {
 		switch name {
 		case "zzvInt", "zzvIntIn", "zzvBool", "zzvChoice", "zzvFloat", "zzvFloatIn", "zzvString", "zzvByteString",
-			"zzvAssume", "zzvKnown", "zzvKnownEnd", "zzvFreeze", "zzvUnfreeze", "zzvFloatMag", "zzvFloatRel", "zzvBodyChildren":
+			"zzvAssume", "zzvKnown", "zzvKnownEnd", "zzvFreeze", "zzvUnfreeze", "zzvFloatMag", "zzvFloatRel", "zzvTokenDecoder", "zzvBodyChildren":
 			panic(specAbort{"intrinsic " + name + " in a speculative arm"})
 		}
 	}
@@ -198,6 +198,11 @@ func callIntrinsic(fr *frame, fn *ssa.Function, args []value) (value, bool) {
 		// |a-b| <= tol on floats, one term (no forking)
 		d := tb.Sub(x.term(args[0]), x.term(args[1]))
 		return x.mkSym(types.Bool, tb.Le(tb.Abs(d), x.term(args[2]))), true
+	case "zzvTokenDecoder":
+		return native{x.newTokenDecoder(args[0], args[1], args[2])}, true
+	case "zzvTokensConsumedAfterError":
+		d := args[0].(native).v.(*decObj)
+		return d.afterErr, true
 	case "zzvCrossLE":
 		// |a*b - c*d| <= tol over the integers (exact, no machine arithmetic)
 		d := tb.Sub(tb.Mul(x.term(args[0]), x.term(args[1])), tb.Mul(x.term(args[2]), x.term(args[3])))
